@@ -103,7 +103,7 @@ theorem InvL.sameCbs {g : Ghost} {s s' : KState ℚ σ} (hi : InvL g s) (hsz : s
     (hp : ∀ p, s'.proc? p = s.proc? p) (ho : ∀ p, (s'.ev p).out = none → (s.ev p).out = none)
     (hc : ∀ e, (s'.ev e).cbs = (s.ev e).cbs) : InvL g s' :=
   hi.transfer hsz hp ho (fun _ h => h) (fun h => h) (fun e _ h => by rw [hc]; exact h)
-    (fun e L p hL hm _ => Or.inr ⟨L, by rw [hc]; exact hL, hm⟩)
+    (fun e L p hL hm _ => ⟨L, by rw [hc]; exact hL, hm⟩)
 
 /-- triggering a pending request event keeps the core and liveness invariants -/
 theorem Inv.trigger_req {g : Ghost} {s : KState ℚ σ} (hi : Inv g s) (e : EvId) (o : Outcome)
